@@ -62,6 +62,31 @@ def check_class(A, cls, rep):
                             f"({'_save_to_resource' if mu == 'none' else '_save_to_buffer'})",
                             g.witness(w), g.label,
                         )
+    # C01.e: once the tree was mutated, an exceptional way out still attempts the save (a half-applied bulk
+    #        operation must not leave memory / the shared buffer ahead of the backend)
+    for m in muts:
+        for rho in ("root",):
+            for mu in A.modes(cls):
+                b, g = A.graph(cls, m, rho, mu)
+                um = [n for n in live(g) if is_user_mut(n)]
+                attempts = [n.id for n in live(g) if n.kind == "enter" and n["fname"] == "_save" and n["recv"] is not None and n["recv"].kind == "inst" and n["recv"].args[2] == "T"]
+                bad = None
+                for u in um:
+                    succ = [y for (y, l) in g.succ[u.id] if l != "e"]
+                    for y in succ:
+                        w = g.path(y, [g.exc_exit], avoid=attempts)
+                        if w is not None:
+                            bad = (u, w)
+                            break
+                    if bad:
+                        break
+                if bad is None:
+                    rep.ok("C01.e", f"C01.e {g.label}: after a mutation every exceptional exit still goes through the save")
+                else:
+                    u, w = bad
+                    rep.fail("C01.e", norm_key("C01.e", u.func, u.stmt, f"mu={'none' if mu == 'none' else 'buffered'}"),
+                             f"after `{u.stmt}` in {u.func} changed the data, an exception can leave the operation without attempting the save: memory (and a shared buffer entry) keep a change the backend never gets",
+                             g.witness(w), g.label)
     # C01.b: every _save implementation delegates / dispatches
     owner, sv = A.model.lookup(cls, "_save")
     if sv is None:
